@@ -96,7 +96,7 @@ type c16Kernel struct {
 	onDestroy func(name string, failed bool)
 	// onRestoreFail reports the sets that a failing `ipset restore` had created before it failed
 	onRestoreFail func(created []string)
-	trace     []string // human readable command trace of the current cycle
+	trace         []string // human readable command trace of the current cycle
 }
 
 func newC16Kernel() *c16Kernel {
